@@ -592,7 +592,9 @@ fn hostile_c06(o: &mut Out, r: &mut Rng, th: bool) {
                         }
                     }
                     let h = match hint { None => "n", Some(true) => "t", Some(false) => "f" };
-                    o.case(&format!("rD6\t{}\t1400\t{}", h, hex(&[b0, b1])), &format!("{:08x}", fnv(all.as_bytes())), "rD6");
+                    // a compressed header-only datagram hands the empty stream to the decoder
+                    let side = if b0 & 0xa0 == 0x80 { hd(&[], 1400 - 3) } else { ".".to_string() };
+                    o.case(&format!("rD6\t{}\t1400\t{}\t{}", h, hex(&[b0, b1]), side), &format!("{:08x}", fnv(all.as_bytes())), "rD6");
                 }
             }
         }
@@ -609,7 +611,8 @@ fn hostile_c06(o: &mut Out, r: &mut Rng, th: bool) {
     // 0.6 four bytes / 0.7 seven and eight bytes: every flag byte x every control byte
     for b0 in 0..=255u8 {
         for c in 0..=255u8 {
-            if th || c < 8 || c >= 0xfe || c == 0x7f || c == 0x80 {
+            // the two low bits of the flag byte are ack bits: the full control-byte sweep for every fourth value
+            if (th && b0 % 4 == 0) || c < 8 || c >= 0xfe || c == 0x7f || c == 0x80 {
                 hostile6(o, &[b0, 0, (c & 1), c], 1400);
                 hostile7(o, &[b0, 0, (c & 1), 1, 2, 3, 4, c], 1400);
                 hostile7(o, &[b0, 0, 0, 0xff, 0xff, 0xff, 0xff, c, 1, 2, 3, 4], 1400);
